@@ -141,6 +141,31 @@ fn subscription_cases() -> Vec<Case> {
     v
 }
 
+/// documents whose fragments come from other files through `#import`: a fragment definition that is reachable through
+/// several import routes is still ONE definition (5.5.1.1 fragment name uniqueness is about definitions, not routes)
+fn import_cases() -> Vec<Case> {
+    let mut v = vec![];
+    let fk = "fragment FK on K { id }\n";
+    let fk2 = "#import FJ from \"./fj.graphql\"\nfragment FK on K { ...FJ }\n";
+    let fl = "#import FJ from \"./fj.graphql\"\nfragment FL on J { ...FJ }\n";
+    let fj = "fragment FJ on J { id }\n";
+    let mut add = |label: &str, doc: String, expect_valid: bool, why: &str| v.push(Case { family: "imported fragments", label: label.to_string(), doc, expect_valid, why: why.to_string() });
+    add("one import", format!("#import FK from \"./fk.graphql\"\nquery {{ k {{ ...FK }} }}\n--- ops/fk.graphql\n{fk}"), true, "the imported fragment is defined once and applicable");
+    add("one-route transitive import", format!("#import FK from \"./fk.graphql\"\nquery {{ k {{ ...FK }} }}\n--- ops/fk.graphql\n{fk2}--- ops/fj.graphql\n{fj}"), true, "each fragment is defined once");
+    add("direct import and the same fragment again through another import", format!("#import FJ from \"./fj.graphql\"\n#import FK from \"./fk.graphql\"\nquery {{ k {{ ...FK ...FJ }} }}\n--- ops/fk.graphql\n{fk2}--- ops/fj.graphql\n{fj}"), true, "FJ is one definition reached through two routes");
+    add("the same fragment through another import first, then directly", format!("#import FK from \"./fk.graphql\"\n#import FJ from \"./fj.graphql\"\nquery {{ k {{ ...FK ...FJ }} }}\n--- ops/fk.graphql\n{fk2}--- ops/fj.graphql\n{fj}"), true, "FJ is one definition reached through two routes");
+    add("diamond", format!("#import FK from \"./fk.graphql\"\n#import FL from \"./fl.graphql\"\nquery {{ k {{ ...FK ...FL }} }}\n--- ops/fk.graphql\n{fk2}--- ops/fl.graphql\n{fl}--- ops/fj.graphql\n{fj}"), true, "FJ is one definition reached through two routes");
+    add("diamond across directories", format!("#import FK from \"./a/fk.graphql\"\n#import FL from \"./b/fl.graphql\"\nquery {{ k {{ ...FK ...FL }} }}\n--- ops/a/fk.graphql\n{}--- ops/b/fl.graphql\n{}--- ops/fj.graphql\n{fj}", fk2.replace("./fj", "../fj"), fl.replace("./fj", "../fj")), true, "FJ is one definition reached through two routes");
+    add("three routes", format!("#import FK from \"./fk.graphql\"\n#import FL from \"./fl.graphql\"\n#import FJ from \"./fj.graphql\"\nquery {{ k {{ ...FK ...FL ...FJ }} }}\n--- ops/fk.graphql\n{fk2}--- ops/fl.graphql\n{fl}--- ops/fj.graphql\n{fj}"), true, "FJ is one definition reached through three routes");
+    add("two import statements for one file", format!("#import FK from \"./f.graphql\"\n#import FL from \"./f.graphql\"\nquery {{ k {{ ...FK ...FL }} }}\n--- ops/f.graphql\nfragment FK on K {{ id }}\nfragment FL on J {{ id }}\n"), true, "each fragment is defined once");
+    add("wildcard import of a file that imports", format!("#import * from \"./fk.graphql\"\nquery {{ k {{ ...FK }} }}\n--- ops/fk.graphql\n{fk2}--- ops/fj.graphql\n{fj}"), true, "each fragment is defined once");
+    add("mutually importing files", "#import A from \"./a.graphql\"\nquery { k { ...A } }\n--- ops/a.graphql\n#import B from \"./b.graphql\"\nfragment A on K { id ... on K { ...B } }\n--- ops/b.graphql\n#import A from \"./a.graphql\"\nfragment B on K { id }\n".to_string(), true, "the files import each other but the fragments do not form a cycle");
+    add("imported fragment with the name of a local one", format!("#import FK from \"./fk.graphql\"\nquery {{ k {{ ...FK }} }}\nfragment FK on K {{ id }}\n--- ops/fk.graphql\n{fk}"), false, "two definitions named FK");
+    add("imported fragment not applicable", format!("#import FK from \"./fk.graphql\"\nquery {{ l {{ ...FK }} }}\n--- ops/fk.graphql\n{fk}"), false, "K can never apply inside L");
+    add("import of a fragment the file does not define", format!("#import Nope from \"./fk.graphql\"\nquery {{ k {{ ...Nope }} }}\n--- ops/fk.graphql\n{fk}"), false, "Nope is not defined");
+    v
+}
+
 fn main() {
     let args: Vec<String> = std::env::args().collect();
     let only: Option<usize> = args.iter().position(|a| a == "--one").and_then(|i| args.get(i + 1)).and_then(|x| x.parse().ok());
@@ -156,8 +181,9 @@ fn main() {
         });
     }
     cases.extend(subscription_cases());
+    cases.extend(import_cases());
     let tmp = std::env::temp_dir().join(format!("vx-opverdict-{}", std::process::id()));
-    let config = "schema: ./schema/*.graphql\ndocuments: ./ops/*.graphql\n".to_string();
+    let config = "schema: ./schema/*.graphql\ndocuments: ./ops/**/*.graphql\n".to_string();
     let results = cli::par_map(cases.len(), &tmp, |i, dir| {
         if let Some(o) = only {
             if o != i {
@@ -165,7 +191,17 @@ fn main() {
             }
         }
         let c = &cases[i];
-        Some(cli::run(&clip, dir, &[("graphql.config.yaml".into(), config.clone()), ("schema/s.graphql".into(), SCHEMA.to_string()), ("ops/o.graphql".into(), c.doc.clone())], "check"))
+        // a document may consist of several files: "<ops/o.graphql text>\n--- <path>\n<text>..."
+        let mut files = vec![("graphql.config.yaml".to_string(), config.clone()), ("schema/s.graphql".to_string(), SCHEMA.to_string())];
+        for (k, part) in c.doc.split("\n--- ").enumerate() {
+            if k == 0 {
+                files.push(("ops/o.graphql".to_string(), part.to_string()));
+            } else {
+                let (path, text) = part.split_once('\n').unwrap_or((part, ""));
+                files.push((path.to_string(), text.to_string()));
+            }
+        }
+        Some(cli::run(&clip, dir, &files, "check"))
     });
     let _ = std::fs::remove_dir_all(&tmp);
     let mut failures = vec![];
